@@ -181,7 +181,7 @@ theorem step_valInv {s s' : S} {l : Label} (h : step s l = some s') (I : ValInv 
     · simp at h
   case rCtl =>
     split at h <;> simp at h <;> subst h
-    · exact ⟨i1, i2, i3, i4⟩
+    · exact ⟨i1, i2, i3, by simp⟩
     · exact ⟨i1, i2, i3, by simp⟩
     · exact ⟨i1, i2, i3, by simp⟩
     · exact ⟨i1, i2, i3, by simp⟩
